@@ -386,6 +386,13 @@ func finish(w *World, p *Plan, r *Result) {
 		for _, l := range k.TraceLog {
 			fmt.Fprintln(os.Stderr, l)
 		}
+		for _, e := range w.decodeEmissions(0) {
+			first := ""
+			if e.M != nil {
+				first = e.M.StartLine
+			}
+			fmt.Fprintf(os.Stderr, "EMISSION #%d step=%d %v %s %s>%s id=%s err=%q %s\n", e.E.Seq, e.E.Step, e.E.At, e.E.Proto, e.E.Src, e.E.Dst, e.ID, e.E.Err, clip(first, 60))
+		}
 	}
 }
 
